@@ -36,15 +36,35 @@ Proof.
 Qed.
 Print Assumptions C05_commit_only_on_success.
 
-(* success against a conforming registry: for EVERY stream (any length, empty, a multiple of the chunk size or not),
-   every chunk size >= 1, a registry that accepts every in-order PATCH (possibly relocating the session), and a
-   descriptor that is absent or truthful, the upload terminates within length+2 iterations, reports success and the
-   registry has committed exactly the stream *)
+(* success against a registry that behaves within the distribution spec: for EVERY stream (any length, empty, a
+   multiple of the chunk size or not), every chunk size >= 1, EVERY prefix of the stream already held by the session
+   (the fall-back from a failed single-request upload; the whole stream included), every script of in-order PATCH
+   answers - accepted, relocated session, early 201, connection dropped after any k stored bytes (answered 416 + Range
+   on the re-send) - with no more dropped requests than the retry budget, and a descriptor that is absent or truthful:
+   the upload terminates within length+3 iterations, reports success, and the registry has committed exactly the
+   stream *)
+Theorem C05_spec_conforming_succeeds : forall stream cap held tail sc declared dsize, (0 < cap)%nat ->
+  stream = held ++ tail -> (drops sc + (match held with [] => 0 | _ => 1 end) <= retry_limit)%nat ->
+  (declared = None \/ declared = Some stream) -> (dsize = 0 \/ dsize = zlen stream) ->
+  forall k, exists lg, upload (length stream + 3 + k) stream cap held sc declared dsize = (Done, Some stream, lg).
+Proof. exact spec_conforming_succeeds. Qed.
+Print Assumptions C05_spec_conforming_succeeds.
+
+(* the special case of a registry that accepts every PATCH *)
 Theorem C05_conforming_succeeds : forall stream cap sc declared dsize, (0 < cap)%nat -> accepting sc = true ->
   (declared = None \/ declared = Some stream) -> (dsize = 0 \/ dsize = zlen stream) ->
-  exists lg, upload (length stream + 2) stream cap [] sc declared dsize = (Done, Some stream, lg).
+  exists lg, upload (length stream + 3) stream cap [] sc declared dsize = (Done, Some stream, lg).
 Proof. exact conforming_succeeds. Qed.
 Print Assumptions C05_conforming_succeeds.
+
+(* the loop as it was before the repair (known-findings.txt): a session that already holds the whole 3-byte stream,
+   chunk size 2: the PATCH 0-1 is answered 416 + Range 0-2, the client reads the last byte and then refuses with
+   "chunkStart != bufStart" instead of closing the upload; the repaired loop succeeds on the same input *)
+Theorem C05_old_loop_refuted :
+  snd (loop_old 40 (init [1;2;3]%N 2 [1;2;3]%N [])) = EMismatchOffsets /\
+  fst (fst (upload 40 [1;2;3]%N 2 [1;2;3]%N [] None 0)) = Done.
+Proof. vm_compute. split; reflexivity. Qed.
+Print Assumptions C05_old_loop_refuted.
 
 (* non-vacuity: boundary lengths, partial acknowledgements and a fall-back all reach Done in the model *)
 Example C05_nonvacuous :
@@ -52,5 +72,6 @@ Example C05_nonvacuous :
   fst (fst (upload 40 s 4 [] [SDrop 1; SAccept; SDrop 4; SReloc] None 0)) = Done /\
   fst (fst (upload 40 s 4 [1;2;3;4;5;6]%N [] (Some s) 9)) = Done /\
   fst (fst (upload 40 s 3 [] [SEarly201] (Some [9]%N) 0)) = EDigest /\
-  fst (fst (upload 40 [] 3 [] [] None 0)) = Done.
-Proof. vm_compute. repeat split. Qed.
+  fst (fst (upload 40 [] 3 [] [] None 0)) = Done /\
+  (drops [SDrop 1; SAccept; SDrop 4; SReloc] + 1 <= retry_limit)%nat.
+Proof. vm_compute. repeat split; repeat constructor. Qed.
